@@ -34,3 +34,298 @@ fn c17_b_bh_f32() {
     assert!(h.mant == 2 * m + 1 && h.exp == e - 1, "C17 bh(x) is x plus half an ulp");
     kani::cover!(e_field == 0);
 }
+
+// ---------------------------------------------------------------- scientific_exponent
+
+const SP10: [u64; 20] = [
+    1, 10, 100, 1_000, 10_000, 100_000, 1_000_000, 10_000_000, 100_000_000, 1_000_000_000,
+    10_000_000_000, 100_000_000_000, 1_000_000_000_000, 10_000_000_000_000, 100_000_000_000_000,
+    1_000_000_000_000_000, 10_000_000_000_000_000, 100_000_000_000_000_000,
+    1_000_000_000_000_000_000, 10_000_000_000_000_000_000,
+];
+
+/// scientific_exponent(num) == exponent + floor(log10(mantissa)) for EVERY u64 mantissa
+/// (0 counts as one digit) and every exponent that cannot overflow (|e| <= 2^31 - 21: the
+/// moderate stage only declines for decimal exponents inside its table range).
+#[kani::proof]
+#[kani::unwind(22)]
+fn pslow_scientific_exponent() {
+    let num = Number { exponent: kani::any(), mantissa: kani::any(), many_digits: kani::any() };
+    kani::assume(num.exponent >= i32::MIN + 21 && num.exponent <= i32::MAX - 21);
+    let r = scientific_exponent(&num);
+    // number of decimal digits minus one, from literal thresholds
+    let mut d: i32 = 0;
+    let mut k = 1;
+    while k < 20 {
+        if num.mantissa >= SP10[k] {
+            d = k as i32;
+        }
+        k += 1;
+    }
+    assert!(r == num.exponent + d, "P-SLOW scientific_exponent = exponent + floor(log10 mantissa)");
+    kani::cover!(d == 19);
+    kani::cover!(num.mantissa == 0);
+}
+
+// ---------------------------------------------------------------- slow(): glue
+
+static mut S_BIG_DIGITS: usize = 0;
+static mut S_MAXD: usize = 0;
+static mut S_POS: Option<i32> = None;
+static mut S_NEG: Option<(u64, i32, i32)> = None;
+static mut S_RET: ExtendedFloat = ExtendedFloat { mant: 0, exp: 0 };
+
+fn ghost_parse_mantissa<'a, Iter1, Iter2>(_integer: Iter1, _fraction: Iter2, max_digits: usize) -> (Bigint, usize)
+where
+    Iter1: Iterator<Item = &'a u8> + Clone,
+    Iter2: Iterator<Item = &'a u8> + Clone,
+{
+    unsafe {
+        S_MAXD = max_digits;
+        (Bigint::new(), S_BIG_DIGITS)
+    }
+}
+fn ghost_positive<F: Float>(_bigmant: Bigint, exponent: i32) -> ExtendedFloat {
+    unsafe {
+        S_POS = Some(exponent);
+        S_RET
+    }
+}
+fn ghost_negative<F: Float>(_bigmant: Bigint, fp: ExtendedFloat, exponent: i32) -> ExtendedFloat {
+    unsafe {
+        S_NEG = Some((fp.mant, fp.exp, exponent));
+        S_RET
+    }
+}
+
+macro_rules! slow_glue {
+    ($name:ident, $t:ty, $maxd:expr) => {
+        /// slow::<F>: keeps MAX_DIGITS (769 / 114) digits; the power of ten applied to the digit
+        /// integer is  scientific_exponent + 1 - digits kept;  non-negative -> positive_digit_comp,
+        /// negative -> negative_digit_comp with the estimate passed on unchanged; result returned as is.
+        #[kani::proof]
+        #[kani::unwind(8)]
+        #[kani::stub(parse_mantissa, ghost_parse_mantissa)]
+        #[kani::stub(positive_digit_comp, ghost_positive)]
+        #[kani::stub(negative_digit_comp, ghost_negative)]
+        fn $name() {
+            let num = Number { exponent: kani::any(), mantissa: kani::any(), many_digits: kani::any() };
+            kani::assume(num.exponent >= -5000 && num.exponent <= 5000);
+            let fp = ExtendedFloat { mant: kani::any(), exp: kani::any() };
+            kani::assume(fp.mant >> 63 == 1);
+            let digits: usize = kani::any();
+            kani::assume(digits >= 1 && digits <= $maxd + 1);
+            let ret = ExtendedFloat { mant: kani::any(), exp: kani::any() };
+            unsafe {
+                S_BIG_DIGITS = digits;
+                S_RET = ret;
+            }
+            let empty: [u8; 0] = [];
+            let r = slow::<$t, _, _>(num, fp, empty.iter(), empty.iter());
+            let sci = scientific_exponent(&num);
+            let ex = sci + 1 - digits as i32;
+            unsafe {
+                assert!(S_MAXD == $maxd, "P-SLOW keeps MAX_DIGITS digits (769 f64 / 114 f32)");
+                if ex >= 0 {
+                    assert!(S_POS == Some(ex) && S_NEG.is_none(), "P-SLOW non-negative scale -> positive_digit_comp(digits, sci+1-count)");
+                } else {
+                    assert!(S_NEG == Some((fp.mant, fp.exp, ex)) && S_POS.is_none(), "P-SLOW negative scale -> negative_digit_comp(digits, estimate, sci+1-count)");
+                }
+            }
+            assert!(r == ret, "P-SLOW result of the comparison returned unchanged");
+            kani::cover!(ex >= 0);
+            kani::cover!(ex < 0);
+        }
+    };
+}
+slow_glue!(pslow_slow_glue_f64, f64, 769);
+slow_glue!(pslow_slow_glue_f32, f32, 114);
+
+// ---------------------------------------------------------------- positive_digit_comp
+
+static mut P_POW: Option<(u32, u32)> = None;
+fn ghost_bigint_pow(_this: &mut Bigint, base: u32, exp: u32) -> Option<()> {
+    unsafe {
+        assert!(P_POW.is_none(), "exactly one scaling");
+        P_POW = Some((base, exp));
+    }
+    Some(())
+}
+
+fn big_from(a: &[u64]) -> Bigint {
+    Bigint { data: crate::bigint::VecType::try_from(a).unwrap() }
+}
+
+macro_rules! positive_comp {
+    ($name:ident, $t:ty, $fmt:expr, $len:expr, $tie:expr) => {
+        /// positive_digit_comp::<F>(digits, e) with Bigint::pow replaced by a ghost recorder
+        /// (its contract: the value becomes digits * 10^e; here the symbolic vector stands for
+        /// that product): scales by 10^e exactly once, and the packed result is the
+        /// round-to-nearest-even of the big integer's VALUE: top 64 bits from hi64, binary
+        /// exponent from bit_length, every lower bit feeding the sticky flag.
+        #[kani::proof]
+        #[kani::unwind(66)]
+        #[kani::stub(Bigint::pow, ghost_bigint_pow)]
+        fn $name() {
+            let a: [u64; 4] = kani::any();
+            kani::assume(a[$len - 1] != 0);
+            let x = big_from(&a[..$len]);
+            let v = ref_from_slice(&a[..$len]);
+            let e: i32 = kani::any();
+            kani::assume(e >= 0);
+            let fp = positive_digit_comp::<$t>(x, e);
+            unsafe {
+                assert!(P_POW == Some((10, e as u32)), "P-SLOW positive_digit_comp scales by 10^exponent");
+            }
+            let bits = fp.mant | ((fp.exp as u64) << $fmt.ms);
+            assert!(fp.exp >= 0 && fp.exp as u64 <= $fmt.inf_e && fp.mant <= 1u64 << $fmt.ms);
+            let (top, sticky) = ref_hi64(&v);
+            let bl = ref_bit_length(&v) as i32;
+            assert!(spec_is_rne_value($fmt, top, bl - 64, sticky, bits), "P-SLOW positive_digit_comp == RNE of the exact integer value");
+            kani::cover!(!$tie || (sticky && !spec_is_rne_value($fmt, top, bl - 64, false, bits)), "sticky bits break a tie upward");
+        }
+    };
+}
+positive_comp!(pslow_positive_comp_f64_1, f64, F64, 1, false);
+positive_comp!(pslow_positive_comp_f64_2, f64, F64, 2, true);
+positive_comp!(pslow_positive_comp_f64_3, f64, F64, 3, true);
+positive_comp!(pslow_positive_comp_f32_1, f32, F32, 1, false);
+positive_comp!(pslow_positive_comp_f32_2, f32, F32, 2, true);
+positive_comp!(pslow_positive_comp_f32_3, f32, F32, 3, false);
+
+// ---------------------------------------------------------------- parse_mantissa
+//
+// The big integer's vector operations mul_small / add_small are replaced by ghost recorders
+// that keep the VALUE of the big integer in a u128 (their own contracts: value' = value * y,
+// value' = value + y, obligations c12_small_mul / c12_small_add_from).  What is verified here
+// is everything parse_mantissa itself does: chunking into 19-digit words, the cut at
+// max_digits, skipping of leading fraction zeros, the single sticky digit, the count.
+
+static mut PM_VAL: u128 = 0;
+static mut PM_OVF: bool = false;
+
+fn ghost_mul_small(_v: &mut crate::bigint::VecType, y: Limb) -> Option<()> {
+    unsafe {
+        match PM_VAL.checked_mul(y as u128) {
+            Some(x) => PM_VAL = x,
+            None => PM_OVF = true,
+        }
+    }
+    Some(())
+}
+fn ghost_add_small(_v: &mut crate::bigint::VecType, y: Limb) -> Option<()> {
+    unsafe {
+        match PM_VAL.checked_add(y as u128) {
+            Some(x) => PM_VAL = x,
+            None => PM_OVF = true,
+        }
+    }
+    Some(())
+}
+
+fn digits24() -> [u8; 24] {
+    let a: [u8; 24] = kani::any();
+    let mut i = 0;
+    while i < 24 {
+        kani::assume(a[i] >= b'0' && a[i] <= b'9');
+        i += 1;
+    }
+    a
+}
+
+/// value of the decimal digit string D[from..to] (to - from <= 19), D = int ++ frac
+fn dec_value(int: &[u8], frac: &[u8], from: usize, to: usize) -> u64 {
+    let mut v: u64 = 0;
+    let mut i = from;
+    while i < to {
+        let d = if i < int.len() { int[i] } else { frac[i - int.len()] };
+        v = v * 10 + (d - b'0') as u64;
+        i += 1;
+    }
+    v
+}
+
+/// parse_mantissa(int, frac, max_digits) for the given digit-count shape (digit values
+/// symbolic; `z` = number of leading fraction zeros when there is no integer part):
+/// the big integer is the first min(significant, max_digits) significant digits, followed by
+/// ONE extra digit '1' exactly when some later digit (integer or fraction) is non-zero;
+/// the returned count is the number of digits in that integer.
+fn parse_mantissa_case(ilen: usize, flen: usize, z: usize, max_digits: usize) {
+    let int = digits24();
+    let mut frac = digits24();
+    kani::assume(ilen == 0 || int[0] != b'0');
+    // leading fraction zeros are CONCRETE bytes and the first significant fraction digit of a
+    // number without integer part is the concrete digit '7': symbolic execution then follows
+    // one control path through the zero-skipping loop (all other digits stay symbolic)
+    let mut k = 0;
+    while k < 24 {
+        if ilen == 0 && k < z && k < flen {
+            frac[k] = b'0';
+        }
+        k += 1;
+    }
+    if ilen == 0 && z < flen {
+        frac[z] = b'7';
+    }
+    unsafe {
+        PM_VAL = 0;
+        PM_OVF = false;
+    }
+    let (_big, count) = parse_mantissa(int[..ilen].iter(), frac[..flen].iter(), max_digits);
+    // specification (positional notation, split after 19 digits when longer)
+    let total = ilen + flen;
+    let s = if ilen == 0 { if z < flen { z } else { flen } } else { 0 };
+    let sig = total - s;
+    let kept = if sig < max_digits { sig } else { max_digits };
+    let v: u128 = if kept <= 19 {
+        dec_value(&int[..ilen], &frac[..flen], s, s + kept) as u128
+    } else {
+        let hi = dec_value(&int[..ilen], &frac[..flen], s, s + 19) as u128;
+        let lo = dec_value(&int[..ilen], &frac[..flen], s + 19, s + kept) as u128;
+        hi * (SP10[kept - 19] as u128) + lo
+    };
+    let mut nonzero_tail = false;
+    let mut i = s + kept;
+    while i < total {
+        let d = if i < ilen { int[i] } else { frac[i - ilen] };
+        if d != b'0' {
+            nonzero_tail = true;
+        }
+        i += 1;
+    }
+    let (ev, ec) = if nonzero_tail { (v * 10 + 1, kept + 1) } else { (v, kept) };
+    assert!(count == ec, "P-SLOW parse_mantissa digit count = digits kept (+1 sticky digit)");
+    unsafe {
+        assert!(!PM_OVF);
+        assert!(PM_VAL == ev, "P-SLOW parse_mantissa value = kept digits, then one sticky '1' iff a later digit is non-zero");
+    }
+    kani::cover!(nonzero_tail || sig <= max_digits);
+}
+
+macro_rules! pmant {
+    ($name:ident, $i:expr, $f:expr, $z:expr, $m:expr) => {
+        #[kani::proof]
+        #[kani::unwind(26)]
+        #[cfg_attr(not(feature = "alloc"), kani::stub(crate::stackvec::StackVec::mul_small, ghost_mul_small))]
+        #[cfg_attr(not(feature = "alloc"), kani::stub(crate::stackvec::StackVec::add_small, ghost_add_small))]
+        #[cfg_attr(feature = "alloc", kani::stub(crate::heapvec::HeapVec::mul_small, ghost_mul_small))]
+        #[cfg_attr(feature = "alloc", kani::stub(crate::heapvec::HeapVec::add_small, ghost_add_small))]
+        fn $name() {
+            parse_mantissa_case($i, $f, $z, $m);
+        }
+    };
+}
+pmant!(pslow_pmant_i3_f0_all, 3, 0, 0, 769);
+pmant!(pslow_pmant_i0_f5_z2_all, 0, 5, 2, 769);
+pmant!(pslow_pmant_i0_f3_z3_all, 0, 3, 3, 114);
+pmant!(pslow_pmant_i2_f3_all, 2, 3, 0, 114);
+pmant!(pslow_pmant_i20_f0_all, 20, 0, 0, 769);
+pmant!(pslow_pmant_i19_f2_all, 19, 2, 0, 769);
+pmant!(pslow_pmant_i5_f5_m3, 5, 5, 0, 3);
+pmant!(pslow_pmant_i2_f5_m4, 2, 5, 0, 4);
+pmant!(pslow_pmant_i2_f5_m7, 2, 5, 0, 7);
+pmant!(pslow_pmant_i0_f8_z2_m4, 0, 8, 2, 4);
+pmant!(pslow_pmant_i21_f0_m20, 21, 0, 0, 20);
+pmant!(pslow_pmant_i19_f3_m19, 19, 3, 0, 19);
+pmant!(pslow_pmant_i10_f12_m21, 10, 12, 0, 21);
+pmant!(pslow_pmant_i0_f23_z1_m21, 0, 23, 1, 21);
